@@ -299,6 +299,14 @@ class C14(Property):
         # fixed cca5199: tuple path, single+strict, several matches raised TypeError from the message formatting
         out.append(self._case(d, 0, "l/[:]", True, True, None, "tuple"))
         out.append(self._case(d, 0, "l/[:]", True, True, None, "list"))
+        # seeded mutation C14-root-lazy-property: '/' from an element that was queried while detached and grafted
+        # afterwards starts at the root of the tree it is in now
+        for dc in cm.root_lazy_demo_cases():
+            for st in dc["starts"]:
+                for pth, a in (("/", {"top": True, "trail": False, "steps": []}),
+                               ("/[:]", {"top": True, "trail": False, "steps": [{"t": "slice", "a": None, "b": None, "sep": False}]}),
+                               ("/0", {"top": True, "trail": False, "steps": [{"t": "name", "s": "0", "br": False, "sep": False, "escall": False}]})):
+                    out.append(self._case(dc["tree"], st, pth, False, False, a, None, dc["init"], dc["history"]))
         # open: KF-C14-b — a slice step written as zero is read as 1
         astz = {"top": False, "trail": False, "steps": [{"t": "slice", "a": None, "b": None, "c": {"v": 0}, "sep": False}]}
         out.append(self._case(lst, 0, "[::0]", True, False, astz))
@@ -374,18 +382,23 @@ class C14(Property):
             schema = cm.rand_schema(rng, depth, rng.choice(["root", None, "r/"]), hostile, pools, top=True)
             tree = cm.number(cm.instantiate(rng, schema))
             init, history = None, None
-            if rng.random() < 0.15:
+            if rng.random() < 0.25:
                 final, history = cm.rand_history(rng, tree, rng.choice([1, 2, 3]))
                 if history:
                     init, tree = tree, final
             nodes = list(cm.preorder(tree))
+            # elements queried while detached and grafted afterwards: evaluate from them, absolute paths too
+            grafted = [x for x in nodes if x["id"] in set(cm.grafted_ids(history))]
             per_tree = rng.choice([4, 8, 12])
             for _ in range(per_tree):
                 if made >= n:
                     break
                 containers = [x for x in nodes if x["kids"]]
                 r0 = rng.random()
-                if r0 < 0.5 and containers:
+                from_grafted = bool(grafted) and rng.random() < 0.5
+                if from_grafted:
+                    start = rng.choice(grafted)
+                elif r0 < 0.5 and containers:
                     start = rng.choice(containers)
                 elif r0 < 0.8:
                     start = rng.choice(nodes)
@@ -398,7 +411,7 @@ class C14(Property):
                     path = _rand_malformed(rng, tree)
                     yield self._case(tree, start["id"], path, strict, single, None, rng.choice([None] * 9 + ["list"]), init, history)
                 else:
-                    top = rng.random() < 0.3
+                    top = rng.random() < (0.7 if from_grafted else 0.3)
                     walk_from = tree if top else start
                     steps = _rand_steps(rng, tree, walk_from, rng.choice([0, 1, 1, 2, 2, 3, 3, 4, 5, 6]),
                                         p_miss=rng.choice([0.0, 0.0, 0.1, 0.3]), canon=rng.random() < 0.75)
@@ -563,6 +576,10 @@ class C14(Property):
             t.append("path-as-%s" % case["as_segments"])
         if case.get("history"):
             t.append("tree-after-list-history")
+            if any(op["op"] == "query" for op in case["history"]):
+                t.append("history-with-queries")
+            if case["start"] in cm.grafted_ids(case["history"]):
+                t.append("start-queried-before-graft")
         return sorted(set(t))
 
     def shrink_candidates(self, case):
@@ -598,7 +615,9 @@ C14.rule = (
     "(start element, path, strict, single) cases (start biased to containers); 85% paths are printed from a random AST walked along the tree (names "
     "mostly existing, index spellings `n`/`[n]`/`-n`/` n`/`0n`/`+n`, every slice form, `..`/`.` anywhere, leading/"
     "trailing slash, optional escapes), 75% of them with all `..` first (the theorem's Canon domain); 15% malformed "
-    "strings over path punctuation for the tokenizer; non-trivial = AST of >= 2 steps, or >= 2 ops, or an error")
+    "strings over path punctuation for the tokenizer; 25% of the trees are reached through a history of List operations "
+    "with path evaluations in between and with members that are built detached, queried and then grafted (such "
+    "elements are preferred start elements, 70% absolute paths); non-trivial = AST of >= 2 steps, or >= 2 ops, or an error")
 C14.level_note = (
     "Proved in Lean for all trees/starts/strict/single: FIFO work list = depth-first reading (evalOps_denotes); find = "
     "single-table of that reading of tokenize(path) for EVERY string (find_denotes, single_spec); compiled AST = spec "
